@@ -74,6 +74,12 @@ let event_string (e : M.event) : string =
 
 let run (toks : string list) : string =
   match toks with
+  | ["dot"; chunks] ->
+    let cs = List.map (fun l -> List.map n_of_int l) (hexlist chunks) in
+    let wire = M.dot_encode cs in
+    (match M.dot_decode wire with
+     | Some (d, []) -> hex_of_bytes wire ^ " " ^ hex_of_bytes d
+     | _ -> hex_of_bytes wire ^ " NONE")
   | kind :: caps :: ret :: notify :: noop :: script :: msgs :: derived :: _ ->
     let caps = if caps = "-" then [] else List.map ext_of_string (split_on ',' caps) in
     let ret = if ret = "-" then "" else ret and notify = if notify = "-" then "" else notify in
